@@ -1,6 +1,7 @@
 """Property checks C08, C11, C12, C13."""
 from core import Case, hx, SB, opt, ac, cvn, cvv, kd, mac, sm, tools, canon
 from gens import *  # noqa: F401,F403
+import gens
 from props_a import enum_digest, ref_alg3, tdes_dec, unpad2
 
 CLS = ["VisaCVN10", "VisaCVN18", "VisaCVN22", "InteracCVN133", "MasterCardCVN16", "MasterCardCVN17",
@@ -166,6 +167,25 @@ def C08(ctx):
                     return pool.obj(s).generate_command_mac(hdr, arqc, buf, b"")
                 b2.call = call2
             cases.append(b2)
+    # payloads handed over as one bytearray that the caller keeps and sends again (second card, retry)
+    for c in CLS:
+        for ln in (5, 8, 13, R.randrange(1, 40)):
+            s1, s2 = pool.spec(c), pool.spec(c)
+            d = bytearray(R.randbytes(ln)); arqc = R.randbytes(8); atc = R.randbytes(2); h = bytearray(R.randbytes(5))
+            c1 = cvn_case(pool, s1, "enc", (d, arqc, atc), "cvn payload bytearray sent again")
+            c2 = cvn_case(pool, s2, "enc", (d, arqc, atc), "cvn payload bytearray sent again")
+            m1 = cvn_case(pool, s1, "mac", (h, arqc, atc, d), "cvn payload bytearray sent again")
+            m2 = cvn_case(pool, s2, "mac", (h, arqc, atc, d), "cvn payload bytearray sent again")
+            cases += [c1, m1, c2, m2, cvn_case(pool, s1, "enc", (d, arqc, atc), "cvn payload bytearray sent again")]
+    # one digit string cut into PAN | PSN at every position, under one issuer key (a cache keyed on the concatenation)
+    for c in ("VisaCVN18", "VisaCVN22", "VisaCVN10", "MasterCardCVN16"):
+        for _ in range(ctx.n(3, 20)):
+            keys = (g.key(), g.key(), g.key()); digits = g.digits(R.choice([18, 19, 20]))
+            cuts = list(range(len(digits) - 4, len(digits) + 1)); R.shuffle(cuts)
+            for cut in cuts + cuts[:2]:
+                pan, psn = digits[:cut], digits[cut:]
+                s = (c, keys, g.form(pan), g.form(psn))
+                cases.append(cvn_case(pool, s, "keys", None, "cvn PAN|PSN cut at every position"))
     # the same six ATC||UN bytes cut at every position (a cache keyed on their concatenation)
     for c in ("InteracCVN133", "MasterCardCVN16", "MasterCardCVN17"):
         for _ in range(ctx.n(6, 40)):
@@ -409,6 +429,13 @@ def cold_start(ctx, runs):
     ctx.extra["cold_start_runs"] = 2 * runs
 
 
+def _outcome_b(call):
+    try:
+        return ("ok", call())
+    except Exception as e:  # noqa: BLE001
+        return ("exc", type(e).__name__)
+
+
 def C13(ctx):
     g = G(ctx.sub("g")); R = g.R
     cold_start(ctx, ctx.n(6, 40))
@@ -453,6 +480,33 @@ def C13(ctx):
             ctx.check("stored master keys are 16-byte odd-parity keys", ok, f"{cl} pan={pan} psn={psn}: {hx(o.icc_mk_ac)} {hx(o.icc_mk_smi)} {hx(o.icc_mk_smc)}")
             continue
         ctx.check("derived key is a 16-byte odd-parity key", key_ok(r), d + " -> " + (hx(r) if isinstance(r, bytes) else repr(r)))
+    # whatever comes back for displayed / stored forms of the PAN (blanks, tabs, newline) is still a 16-byte odd key
+    for i in range(ctx.n(1500, 15000)):
+        k = g.key(); pan = g.formatted(g.digits(R.choice([8, 12, 14, 16, 16, 17, 19]))); psn = R.choice([None, g.digits(2)])
+        c = R.randrange(3)
+        try:
+            if c == 0:
+                rs = [kd.derive_icc_mk_a(k, g.form(pan), g.form(psn))]; d = f"mk_a {hx(k)} {pan!r} {psn}"
+            elif c == 1:
+                rs = [kd.derive_icc_mk_b(k, g.form(pan), g.form(psn))]; d = f"mk_b {hx(k)} {pan!r} {psn}"
+            else:
+                cl = R.choice(CLS)
+                o = getattr(cvn, cl)(k, g.key(), g.key(), g.form(pan), g.form(psn)); d = f"{cl} {hx(k)} {pan!r} {psn}"
+                rs = [o.icc_mk_ac, o.icc_mk_smi, o.icc_mk_smc]
+        except ValueError:
+            continue                                     # refused: nothing handed back
+        for r in rs:
+            ctx.check("derived key is a 16-byte odd-parity key", key_ok(r), d + " -> " + (hx(r) if isinstance(r, bytes) else repr(r)))
+    # the key as any object bytearray() accepts: buffers, sequences, one-shot iterables
+    for _ in range(ctx.n(60, 600)):
+        k = R.randbytes(R.choice([16, 16, 8, 24]))
+        want = _outcome_b(lambda: tools.adjust_key_parity(k))
+        for name, mk in gens.byteslike_forms(k):
+            got = _outcome_b(lambda: tools.adjust_key_parity(mk()))
+            ctx.check("adjust_key_parity depends on the key's bytes only", got == want, f"adjust_key_parity(<{name}> of {hx(k)}) -> {got}, bytes form -> {want}")
+            if got[0] == "ok":
+                ctx.check("adjust: odd, only bit 0, idempotent", all(odd(b) for b in got[1]) and tools.adjust_key_parity(got[1]) == got[1],
+                          f"adjust_key_parity(<{name}> of {hx(k)}) -> {hx(got[1])}")
     # keys that force 0xFF / 0x00 / 0xFE bytes through the adjustment
     for v in (0xFF, 0x00, 0xFE, 0x01, 0x80, 0x7F):
         for pos in range(16):
